@@ -1,6 +1,7 @@
 CONSTANTS
   Slot = {1, 2, 3, 4, 5}
   Alloc = {1, 2, 3}
+  MaxH = 99
   Thread = {1, 2, 3}
   Depth = 40
 SPECIFICATION GenSpec
